@@ -51,8 +51,29 @@ inductive Ev (Prog : Type) where
   | set (p : Option Prog)
   | frame (f : Bytes)
 
+/-- the program requested by the last `SetPacketFilter` call of a history (`init` if there was none) -/
+def lastSet {Prog : Type} (init : Option Prog) (evs : List (Ev Prog)) : Option Prog :=
+  evs.foldl (fun a e => match e with | .set p => p | .frame _ => a) init
+
 def Source.step {Prog : Type} (accepts : Prog → Bytes → Bool) (s : Source Prog) : Ev Prog → Source Prog
   | .set p => s.setFilter p
   | .frame f => s.arrive accepts f
+
+/-- what one frame contributes to a read (after the `fix:` for F13): the IP packet behind the
+    Ethernet header if there is a non-empty one; frames of other EtherTypes, frames shorter than an
+    Ethernet header and frames with nothing behind the header are skipped -/
+def handUp (f : Bytes) : Option Bytes :=
+  match strip f with
+  | .packet p => if p.isEmpty then none else some p
+  | _ => none
+
+/-- `afPacketSource.Read` over the queued frames: the first frame that hands up a packet, and the
+    frames left in the queue; `none` = the queue ran dry (the read then waits for its deadline) -/
+def readNext : List Bytes → Option (Bytes × List Bytes)
+  | [] => none
+  | f :: rest =>
+    match handUp f with
+    | some p => some (p, rest)
+    | none => readNext rest
 
 end TRV.Link
